@@ -31,6 +31,7 @@ type c06Spec struct {
 	Word   []string  `json:"word,omitempty"`
 	LWord  []float64 `json:"lword,omitempty"` // series mode: one level per word day
 	Lat    float64   `json:"lat,omitempty"`   // latitude (0 = default 52.52); polar sites use a sunshine-hours column
+	Long   *lwSpec   `json:"long,omitempty"`  // a long world (long.go) instead of words
 }
 
 func repeatWord(w []string, rep int) []string {
@@ -137,6 +138,10 @@ func c06Specs(tier string, seed int) []c06Spec {
 				out = append(out, c06Spec{Base: b, GWMode: "const", Alpha: []string{"dry-hot-windy", "hot-shower", "drizzle", "rain"}, D: d + 1})
 			}
 		}
+	}
+	for _, lw := range lwSpecs(tier, seed, false) {
+		lw := lw
+		out = append(out, c06Spec{Long: &lw})
 	}
 	return out
 }
@@ -338,6 +343,36 @@ func c06Run(raw json.RawMessage, c *mc.Ctx) {
 	sp := mc.Decode[c06Spec](raw)
 	root := scratchRoot()
 	defer os.RemoveAll(root)
+	if sp.Long != nil {
+		w := lwBuild(*sp.Long)
+		w.P.Config["OutputIntervall"] = "1"
+		if b, err := os.ReadFile(filepath.Join(proj.RepoDir(), "examples", "project", "myP", "dailyout_conf.yml")); err == nil {
+			w.P.DailyCols = string(b)
+		}
+		w.P.Write(root)
+		peat := ""
+		if soilCat[lwDefs()[sp.Long.World].soil][0].Tex[0] == 'H' {
+			peat = " peat"
+		}
+		l := &c06Probe{c: c, measDay: w.Start, label: "long world " + w.Name, peatCls: peat}
+		res := proj.Run(root, w.P.Args(root), l.probe())
+		c.Trace(1)
+		switch {
+		case res.Panic != "":
+			c.Violate("run-panic", fmt.Sprintf("run panicked on valid input (%s): %s", l.label, res.Panic), nil)
+		case !res.Success:
+			c.Violate("run-error", fmt.Sprintf("run failed on valid input (%s): %s", l.label, res.Err), nil)
+		default:
+			c.Outcome("ok long world")
+			for name, txt := range res.Files {
+				if strings.Contains(txt, "NaN") || strings.Contains(txt, "Inf") {
+					c.Violate("output-nonfinite"+peat, fmt.Sprintf("%s: result file %s contains NaN/Inf", l.label, name), nil)
+				}
+			}
+		}
+		c.Sample(map[string]interface{}{"long_world": w.Name, "days": w.Days})
+		return
+	}
 	type run struct {
 		w  []string
 		lw []float64
